@@ -227,8 +227,17 @@ def run_nested(case, ex, pend, fails):
     except Hang:
         fails.append(Failure('monitor', 'hang', case, {}, signature='C18.hang'))
         return d
+    registration_failures(run, case, fails)
     collect(d, finals, run.log, case, ex, pend, fails)
     return d
+
+
+def registration_failures(run, case, fails):
+    if run.reg_errors:
+        fails.append(Failure('monitor', 'on_final-registration-rejected', case,
+                             {'rejected': run.reg_errors[:4], 'machine_class': run.machine_cls().__mro__[1].__name__,
+                              'features': run.d.features},
+                             signature='C18.monitor.registration'))
 
 
 def judge_nested_case(case, ex=None):
@@ -301,6 +310,7 @@ def chunk_small(n, lo, hi, kind, deadline, hard, stride):
                 run = nfinal.NRun(d)
                 start = copy.deepcopy(getattr(run.model, 'state'))
                 fails, pend = [], []
+                registration_failures(run, {'part': 'nested', 'desc': d.to_json()}, fails)
                 late = time.time() > deadline
                 for pi, finals in enumerate(placements(n)):
                     if late and pi % stride:
@@ -826,7 +836,8 @@ class C18(runner.Check):
             'descendants, blocked by conditions) + auto transitions x histories of 2-9 events; on_final callbacks registered at '
             'construction, through model methods on_final_<state>, or through machine.on_final_<state>(cb) afterwards (states '
             'without constructor callbacks get no on_final argument); separate model or the machine as its own model; event '
-            'names incl. \'final\'; optionally a second machine with its own dynamic registration alive; alternating '
+            'names incl. \'final\'; optionally a second machine with its own dynamic registration alive; machine class plain / '
+            'locked / decorated with add_state_features (Tags, Error, Volatile); alternating '
             'HierarchicalMachine / HierarchicalAsyncMachine (plain and coroutine recorders); small scope: every ordered '
             'forest with <= N states x every kind of every compound x every final-flag placement x to_Y;to_Z for all '
             'Y,Z; one child machine embedded under several regions; flat: descriptions of harness/flat.py with final states '
